@@ -946,6 +946,60 @@ func c14SendJoinRedactedPowerLevels(c *mon.Ctx, r *gen.Rand, sc *simScenario) {
 			}
 		})
 	}
+	// the same room through CheckStateResponse: the join is one of the state events, the power-levels event arrives
+	// twice - intact and as a hash-broken copy - in either list and either order. The intact copy stands for the event:
+	// the join is judged against it and dropped.
+	for _, order := range []string{"redacted-among-auth-events-intact-in-state", "intact-among-auth-events-redacted-in-state", "redacted-first-among-auth-events", "intact-first-among-auth-events"} {
+		var resp rawResp
+		for _, p := range state {
+			switch {
+			case p != pl:
+				resp.state = append(resp.state, p.JSON())
+			case order == "intact-among-auth-events-redacted-in-state":
+				resp.state = append(resp.state, broken)
+			default:
+				resp.state = append(resp.state, pl.JSON())
+			}
+		}
+		resp.state = append(resp.state, join.JSON())
+		for _, p := range auth {
+			if p.EventID() != pl.EventID() {
+				resp.auth = append(resp.auth, p.JSON())
+			}
+		}
+		switch order {
+		case "redacted-among-auth-events-intact-in-state":
+			resp.auth = append(gmsl.EventJSONs{broken}, resp.auth...)
+		case "intact-among-auth-events-redacted-in-state":
+			resp.auth = append(gmsl.EventJSONs{pl.JSON()}, resp.auth...)
+		case "redacted-first-among-auth-events":
+			resp.auth = append(append(gmsl.EventJSONs{broken}, resp.auth...), pl.JSON())
+		default:
+			resp.auth = append(append(gmsl.EventJSONs{pl.JSON()}, resp.auth...), broken)
+		}
+		c.Case("state-response:redacted-and-intact-power-levels:"+string(s.ver), map[string]any{"version": s.ver, "authoriser": via, "order": order}, func() {
+			c.Nontrivial(fmt.Sprintf("%s|sr-redacted-pl|%s|%s", s.ver, join.EventID(), order))
+			var asked []string
+			var gs []gmsl.PDU
+			var err error
+			site, msg, pan := mon.Guard(func() {
+				_, gs, err = gmsl.CheckStateResponse(context.Background(), resp, s.ver, c14ring, mkProvider(provReturns, s.all, &asked), userIDForSender)
+			})
+			if pan {
+				c.Failf("stateresponse:panic:"+site, "CheckStateResponse panics: %s", msg)
+				return
+			}
+			c.Count("state_responses_with_redacted_and_intact_power_levels")
+			if err != nil {
+				return // a whole-response refusal hands nothing out
+			}
+			for _, p := range gs {
+				if p.EventID() == join.EventID() {
+					c.Failf("stateresponse:returns-bad-state-event:redacted-copy-stood-for-the-auth-event", "CheckStateResponse hands out a restricted join authorised via %s, who lacks the invite level of the power-levels event %s that arrived intact; a hash-broken copy of that event, whose redacted form has no invite level, arrived too (%s)", via, pl.EventID(), order)
+				}
+			}
+		})
+	}
 }
 
 // chainOK is the recursive definition VerifyEventAuthChain implements.
